@@ -33,6 +33,7 @@ type CancelSpec struct {
 	// Helper: cancel from a helper goroutine while item Item is waiting for its retry after attempt Attempt (free-running only)
 	DuringWait bool `json:"during_wait,omitempty"`
 	InPrep     bool `json:"in_prep,omitempty"` // cancel inside the batch node's prep callback
+	DeadlineMs int  `json:"deadline_ms,omitempty"` // Kind "real-deadline": a real context.WithTimeout of this length (expires while items sit in their retry wait)
 }
 
 // BatchCase is the replayable case of the batch engines.
@@ -63,6 +64,8 @@ type BatchCase struct {
 	CtxLike   bool         `json:"ctx_like,omitempty"`  // failing attempts return errors that wrap a context error although the batch's context is alive
 	DwellMs   int          `json:"dwell_ms,omitempty"`   // gated: at the first two saturated quiescent points the controller waits this long before looking again (time-triggered behaviour such as submit timeouts gets its chance)
 	ErrResult bool         `json:"err_result,omitempty"` // failing attempts of the Result-style exec function return (NewErrorResult(e), nil) instead of (_, e): exercised by C17 only
+	GateFB    bool         `json:"gate_fb,omitempty"`    // gated: fallback calls park like exec calls (key item*100+99): c items can sit in their fallbacks together
+	WaitNs    int          `json:"wait_ns,omitempty"`    // a retry wait in nanoseconds (tiny, non-zero waits)
 }
 
 // Prelude describes the earlier run.
@@ -75,6 +78,8 @@ type Prelude struct {
 	Budget int    `json:"budget,omitempty"`
 	C      int    `json:"c,omitempty"`
 	ReVia  string `json:"re_via,omitempty"`
+	// ReMode: the earlier run used the OTHER error-handling mode; afterwards the node is re-configured to the case's mode
+	ReMode bool `json:"re_mode,omitempty"`
 }
 
 type bItem struct {
@@ -502,6 +507,10 @@ func (b *batchRun) execIdx(ctx context.Context, i int, item any) (any, error) {
 		}
 		return &bOut{b.nonce, i, a, false}, nil
 	}
+	if (i+a)%2 == 0 {
+		// a failing attempt may hand back a (meaningless) value next to its error: it must never reach a slot
+		return &bOut{b.nonce, (i + 1) % (len(b.payloads) + 1), a, false}, err
+	}
 	return nil, err
 }
 
@@ -553,12 +562,27 @@ func (b *batchRun) fallback(prepRes any, err error) (any, error) {
 	if !errOK {
 		note = fmt.Sprintf("fallback of item %d received error %v, want the error of attempt %d", i, err, b.cs.Budget)
 	}
-	b.record(BEvent{Kind: "fallback", Item: i, ArgOK: errOK, Note: note})
+	b.record(BEvent{Kind: "fallback", Item: i, ArgOK: errOK, Note: note, OK: !b.script(i).FBE})
+	if b.cs.Gated && b.cs.GateFB {
+		pc := &parkedCall{key: i*100 + 99, ch: make(chan struct{})}
+		b.mu.Lock()
+		b.parked[pc.key] = pc
+		b.mu.Unlock()
+		<-pc.ch
+	}
 	if b.script(i).FBE {
 		e := &itemErr{b.nonce, i, 0, true}
 		b.mu.Lock()
 		b.fbErrs[i] = e
 		b.mu.Unlock()
+		// a failing fallback may hand back a value next to its error (what it was given, or a partial result): the
+		// error counts
+		switch i % 3 {
+		case 1:
+			return prepRes, e
+		case 2:
+			return flyt.NewResult(&bOut{b.nonce, i, 0, true}), e
+		}
 		return nil, e
 	}
 	return &bOut{b.nonce, i, 0, true}, nil
@@ -627,13 +651,16 @@ func (b *batchRun) build() flyt.Node {
 
 func (b *batchRun) build0() flyt.Node {
 	cs := b.cs
-	if cs.Prelude != nil && (cs.Prelude.Budget > 0 || cs.Prelude.ReVia != "") {
+	if cs.Prelude != nil && (cs.Prelude.Budget > 0 || cs.Prelude.ReVia != "" || cs.Prelude.ReMode) {
 		// built with the EARLIER configuration; re-configured after the earlier run
 		c2 := *cs
 		if cs.Prelude.Budget > 0 {
 			c2.Budget = cs.Prelude.Budget
 		}
 		c2.C = cs.Prelude.C
+		if cs.Prelude.ReMode {
+			c2.Stop, c2.SetMode = !cs.Stop, true
+		}
 		cs = &c2
 	}
 	execR := func(ctx context.Context, it flyt.Result) (flyt.Result, error) {
@@ -641,6 +668,9 @@ func (b *batchRun) build0() flyt.Node {
 		if err != nil {
 			if cs.ErrResult {
 				return flyt.NewErrorResult(err), nil
+			}
+			if v != nil {
+				return flyt.NewResult(v), err // a value next to the error: the error counts
 			}
 			return flyt.Result{}, err
 		}
@@ -654,6 +684,9 @@ func (b *batchRun) build0() flyt.Node {
 	wait := time.Duration(cs.WaitMs) * time.Millisecond
 	if cs.WaitHour {
 		wait = time.Hour
+	}
+	if cs.WaitNs > 0 {
+		wait = time.Duration(cs.WaitNs)
 	}
 	var nodeOpts []any
 	if cs.Budget != 1 || cs.N%2 == 0 {
@@ -673,6 +706,24 @@ func (b *batchRun) build0() flyt.Node {
 		bn := flyt.NewBatchNode(flyt.WithBatchConcurrency(4), flyt.WithMaxRetries(7)).WithBatchConcurrency(cs.C).WithMaxRetries(cs.Budget)
 		if cs.Stop || cs.SetMode {
 			bn = bn.WithBatchErrorHandling(!cs.Stop)
+		}
+		bn = bn.WithPrepFunc(prepRes).WithPostFunc(b.post)
+		if cs.ExecStyle == "any" {
+			return bn.WithExecFuncAny(b.exec)
+		}
+		return bn.WithExecFunc(execR)
+	case "builder-mode-first": // error handling first, THEN the concurrency (also 0) through the builder methods
+		bn := flyt.NewBatchNode()
+		if cs.Stop || cs.SetMode {
+			if cs.N%2 == 0 {
+				bn = flyt.NewBatchNode(flyt.WithBatchErrorHandling(!cs.Stop))
+			} else {
+				bn = bn.WithBatchErrorHandling(!cs.Stop)
+			}
+		}
+		bn = bn.WithBatchConcurrency(cs.C).WithMaxRetries(cs.Budget)
+		if wait > 0 {
+			bn = bn.WithWait(wait)
 		}
 		bn = bn.WithPrepFunc(prepRes).WithPostFunc(b.post)
 		if cs.ExecStyle == "any" {
@@ -795,8 +846,14 @@ func runBatchCase(cs *BatchCase) *BatchObs {
 			if cs.Prelude.ReVia == "option" {
 				flyt.WithMaxRetries(cs.Budget)(b.builder.BaseNode)
 				flyt.WithBatchConcurrency(cs.C)(b.builder.BaseNode)
+				if cs.Prelude.ReMode {
+					flyt.WithBatchErrorHandling(!cs.Stop)(b.builder.BaseNode)
+				}
 			} else {
 				b.builder.WithMaxRetries(cs.Budget).WithBatchConcurrency(cs.C)
+				if cs.Prelude.ReMode {
+					b.builder.WithBatchErrorHandling(!cs.Stop)
+				}
 			}
 		}
 		b.cs = cs
@@ -811,6 +868,18 @@ func runBatchCase(cs *BatchCase) *BatchObs {
 			c, cf := context.WithCancelCause(context.Background())
 			ctx, b.cancel = c, func() { cf(errors.New("custom cancellation cause")) }
 			stop = b.cancel
+		case "real-deadline":
+			c, cf := context.WithTimeout(context.Background(), time.Duration(cs.Cancel.DeadlineMs)*time.Millisecond)
+			ctx, stop = c, cf
+			go func() { // note when the deadline has passed (for the record only: nothing is decided on this event's position)
+				<-c.Done()
+				s := b.record(BEvent{Kind: "cancel", Item: -1})
+				b.mu.Lock()
+				if b.cancelSeq < 0 {
+					b.cancelSeq = s
+				}
+				b.mu.Unlock()
+			}()
 		case "deadline", "pre-deadline":
 			f := &fakeDeadlineCtx{Context: context.Background(), done: make(chan struct{})}
 			ctx, b.cancel = f, f.trip
@@ -826,7 +895,7 @@ func runBatchCase(cs *BatchCase) *BatchObs {
 	defer stop()
 	b.ctx = ctx
 	b.t0 = time.Now()
-	b.timed = cs.WaitMs > 0
+	b.timed = cs.WaitMs > 0 || cs.WaitNs > 0
 	store := flyt.NewSharedStore()
 	done := make(chan struct{})
 	var action flyt.Action
@@ -847,6 +916,7 @@ func runBatchCase(cs *BatchCase) *BatchObs {
 		var st quiesce.Stats
 		step := 0
 		dwells := 0
+		idle := 0
 		prng := rand.New(rand.NewPCG(cs.PSeed, 99))
 		for {
 			sn, ok := quiesce.Wait(self, quiesceBudget, &st)
@@ -908,6 +978,13 @@ func runBatchCase(cs *BatchCase) *BatchObs {
 			sort.Ints(keys)
 			qp := QPoint{Parked: keys, Started: b.started, PostCalls: b.postCalls, Width: len(keys), Released: -1, Goroutines: sn.Goroutines, AfterSeq: b.seq}
 			b.mu.Unlock()
+			if len(keys) == 0 && idle < 3 {
+				// A goroutine inside a short retry wait (a select on a timer) looks blocked although its timer is about to
+				// fire. Before the verdict, give every configured finite wait ample time to elapse and look again.
+				idle++
+				time.Sleep(150*time.Millisecond + 20*(time.Duration(cs.WaitMs)*time.Millisecond+time.Duration(cs.WaitNs)))
+				continue
+			}
 			if len(keys) == 0 {
 				// everything is blocked, nothing is parked, Run has not returned: nothing can ever run again
 				// (a goroutine waiting in a select on a 1-hour timer counts as blocked: that is the hang C11/C20 speak of)
@@ -925,6 +1002,15 @@ func runBatchCase(cs *BatchCase) *BatchObs {
 				idx = len(keys) - 1
 			case cs.Policy == "random":
 				idx = prng.IntN(len(keys))
+			case cs.Policy == "hold-fallbacks":
+				// release exec calls first; fallbacks stay parked until nothing else is left (then the lowest one goes)
+				idx = 0
+				for j, k := range keys {
+					if k%100 != 99 {
+						idx = j
+						break
+					}
+				}
 			case cs.Policy == "holdfail":
 				// release a call that is scripted to fail (or to cancel) first, keep the others parked as long as possible
 				idx = -1
@@ -944,6 +1030,7 @@ func runBatchCase(cs *BatchCase) *BatchObs {
 			default:
 				idx = 0
 			}
+			idle = 0
 			qp.Released = keys[idx]
 			obs.Points = append(obs.Points, qp)
 			b.mu.Lock()
